@@ -441,11 +441,20 @@ func equalStrs(a, b []string) bool {
 	}
 	for i := range a {
 		// the native side reports through JSON, which replaces invalid UTF-8 by U+FFFD
-		if strings.ToValidUTF8(a[i], "\uFFFD") != strings.ToValidUTF8(b[i], "\uFFFD") {
+		if validUTF8PerByte(a[i]) != validUTF8PerByte(b[i]) {
 			return false
 		}
 	}
 	return true
+}
+
+// validUTF8PerByte replaces every invalid byte by U+FFFD (what encoding/json does; strings.ToValidUTF8 collapses runs).
+func validUTF8PerByte(s string) string {
+	var sb strings.Builder
+	for _, r := range s { // ranging yields U+FFFD once per invalid byte
+		sb.WriteRune(r)
+	}
+	return sb.String()
 }
 
 // cleanNotes keeps harness notes ("note: ...") and drops engine diagnostics.
